@@ -17,10 +17,14 @@
 package avfs
 
 import (
+	"errors"
 	"io/fs"
 	"reflect"
 	"strconv"
 )
+
+// ErrWriteAtInAppendMode is returned by File.WriteAt on a file opened with O_APPEND (as os.File does).
+var ErrWriteAtInAppendMode = errors.New("os: invalid use of WriteAt on file opened with O_APPEND")
 
 // AlreadyExistsGroupError is returned when the group name already exists.
 type AlreadyExistsGroupError string
